@@ -46,6 +46,9 @@ def cases(chk, env):
     # recorded glob items give edges
     for k in range(25 if tier == "quick" else 150):
         out.append(S.two_run_spec(rng, label="tworun"))
+    # a producer added after the reader's glob items were recorded: the edge must exist in the second run too
+    for k in range(4 if tier == "quick" else 20):
+        out.append(S.late_producer_spec(rng, kind=["glob_items", "glob"][k % 2]))
     return out
 
 
